@@ -30,6 +30,20 @@ pub fn replay_sampler2(id: &str, fl: &str, a: &[u64], words: &[u64]) -> Option<(
             let want = l + s * xb;
             Some(((xa == want || (xa.is_nan() && want.is_nan())) && r1.drawn == r2.drawn,
                   format!("{}: sample(loc={:?}, scale={:?}) = {:?}; loc + scale * sample(0,1) = {:?} (standard draw {:?}); words drawn {} vs {}", id, l, s, xa, want, xb, r1.drawn, r2.drawn))) }
+        "exp" if !a.is_empty() => { let l = f64::from_bits(a[0]); let d = rd::Exp::<f64>::new(l).ok()?;
+            let mut rng = ScriptRng::new(words, 0x5eed); let x: f64 = d.sample(&mut rng);
+            let ok = !x.is_nan() && x >= 0.0 && (if l == 0.0 { x == f64::INFINITY } else { x.is_finite() });
+            Some((ok, format!("Exp({:?}).sample(words {:?}) = {:?}", l, words, x))) }
+        "normal" if a.len() >= 2 => { let (m, s) = (f64::from_bits(a[0]), f64::from_bits(a[1])); let d = rd::Normal::<f64>::new(m, s).ok()?;
+            let mut rng = ScriptRng::new(words, 0x5eed); let x: f64 = d.sample(&mut rng);
+            Some((x.is_finite(), format!("Normal({:?}, {:?}).sample(words {:?}) = {:?}", m, s, words, x))) }
+        "weibull_scale" | "pareto_scale" if a.len() >= 2 && !words.is_empty() => {
+            let (sc, sh) = (f32::from_bits(a[0] as u32), f32::from_bits(a[1] as u32));
+            let (mut r1, mut r2) = (ScriptRng::new(&words[..1], 1), ScriptRng::new(&words[..1], 1));
+            let (xa, xb): (f32, f32) = if id == "weibull_scale" { (rd::Weibull::<f32>::new(sc, sh).ok()?.sample(&mut r1), rd::Weibull::<f32>::new(1.0, sh).ok()?.sample(&mut r2)) }
+                                       else { (rd::Pareto::<f32>::new(sc, sh).ok()?.sample(&mut r1), rd::Pareto::<f32>::new(1.0, sh).ok()?.sample(&mut r2)) };
+            let want = sc * xb;
+            Some(((xa == want || (xa.is_nan() && want.is_nan())) && r1.drawn == r2.drawn, format!("{}: sample(scale={:?}, shape={:?}) = {:?}; scale * sample(1, shape) = {:?}", id, sc, sh, xa, want))) }
         "zipf" if a.len() >= 2 => { let (n, s) = (f64::from_bits(a[0]), f64::from_bits(a[1])); let d = rd::Zipf::<f64>::new(n, s).ok()?;
             let mut rng = ScriptRng::new(words, 0x5eed); let x: f64 = d.sample(&mut rng);
             Some((x >= 1.0 && x <= n, format!("Zipf({:?}, {:?}).sample(words {:?}) = {:?} (support [1, n])", n, s, words, x))) }
